@@ -93,9 +93,10 @@ REGIONS = {
 
 def requests_for(prog, with_spec=True):
     m = tplgen.for_model(prog)
-    reqs = [dict(m, op="render", fuel=FUEL)]
+    fuel = prog.get("fuel", FUEL)
+    reqs = [dict(m, op="render", fuel=fuel)]
     if with_spec:
-        reqs.append(dict(m, op="specrender", fuel=FUEL))
+        reqs.append(dict(m, op="specrender", fuel=fuel))
     return reqs
 
 
@@ -114,6 +115,8 @@ def cmp_model(real, rep, check_events=True):
             return "error-class model=%s real=%s" % (rep["err"], real["err"])
         if rep["err"] == "fuel":
             return None
+        if "rc_before" in real and real["rc_after"] - real["rc_before"] != rep.get("rc_leak", 0):
+            return "render_context depth change model=%s real=%s" % (rep.get("rc_leak"), real["rc_after"] - real["rc_before"])
         if rep["residue"] != real["residue"]:
             return "residue-after-error model=%s real=%s" % (rep["residue"], real["residue"])
         if check_events and tplgen.canon_events(rep["events"], False) != tplgen.canon_events(real["events"], True):
@@ -127,6 +130,8 @@ def cmp_model(real, rep, check_events=True):
         return "events"
     if rep["residue"] != real["residue"]:
         return "residue model=%s real=%s" % (rep["residue"], real["residue"])
+    if "rc_before" in real and real["rc_after"] - real["rc_before"] != rep.get("rc_leak", 0):
+        return "render_context depth change model=%s real=%s" % (rep.get("rc_leak"), real["rc_after"] - real["rc_before"])
     return None
 
 
